@@ -117,3 +117,36 @@ func vfCheckAbandoned(ob string, u *vfUniverse) {
 		}
 	}
 }
+
+// C05.d: ChainDB.ResetBest / dropBlock (manual reset of the best block): after dropping the blocks above resetNo the
+// invariant holds for the remaining prefix and nothing of the dropped blocks is left (block, height mapping, tx mapping,
+// receipts).
+func VF_C05_d() {
+	a := 1 + vf.Choice("a", vf.Param("maxA", 2))
+	u := vfBuild(a, 0, 0, vfTxRange(vf.Param("minTx", 1), vf.Param("maxTx", 1)), nil)
+	u.populate()
+	resetNo := vf.Choice("resetNo", a+1)
+	err := u.cs.cdb.ResetBest(uint64(resetNo))
+	vf.Reach("C05.d")
+	if resetNo >= a {
+		vf.Assert(err == ErrTooBigResetHeight, "C05.d")
+		vfCheckChain("C05.d", u.cs, u.kv, u.oldPath())
+		return
+	}
+	vf.Assert(err == nil, "C05.d")
+	vfCheckChain("C05.d", u.cs, u.kv, u.oldPath()[:resetNo+1])
+	for _, blk := range u.main[resetNo:] {
+		_, e := u.cs.cdb.getBlock(blk.Hash)
+		vf.Assert(e != nil, "C05.d")
+		_, e = u.cs.cdb.getHashByNo(blk.BlockNo())
+		vf.Assert(e != nil, "C05.d")
+		vf.Assert(!u.cs.cdb.checkExistReceipts(blk.Hash, blk.BlockNo()), "C05.d")
+		for _, tx := range blk.Body.Txs {
+			_, _, e := u.cs.cdb.getTx(tx.Hash)
+			vf.Assert(e != nil, "C05.d")
+			// raw key: ChainDB.getTx (and dropBlock's own checkBlockDropped) cannot see a stale entry once the block is gone
+			vf.Assert(len(u.kv.Get(tx.Hash)) == 0, "C05.d")
+		}
+	}
+	vf.Observe("best", u.cs.cdb.getBestBlockNo())
+}
